@@ -374,6 +374,7 @@ int macros_parse(AsmContext *asm_context, int macro_type)
   int ch;
   int parens = 0;
   int param_count = 0;
+  bool in_word = false;
 
   // First pull the name out.
   parens = macros_parse_token(asm_context, name, 128, macro_type);
@@ -469,15 +470,20 @@ printf("debug> macros_parse() param count=%d\n", param_count);
     // Tabs :(.
     if (ch == '\t') { ch = ' '; }
 
+    const bool is_word_char =
+      Macros::is_letter(ch) || Macros::is_digit(ch) || ch == '_';
+
     if (name_test == nullptr)
     {
-      if (Macros::is_letter(ch))
+      // A parameter name starts at the start of a word only: the b of 1b,
+      // the h of 10h or the name of _name are not parameters.
+      if ((Macros::is_letter(ch) || ch == '_') && !in_word)
       {
         name_test = macro + ptr;
       }
     }
       else
-    if (!(Macros::is_letter(ch) || Macros::is_digit(ch) || ch == '_'))
+    if (!is_word_char)
     {
       if (name_test != nullptr)
       {
@@ -501,6 +507,8 @@ printf("debug> macros_parse() name_test='%s' %d\n", name_test, index);
         name_test = nullptr;
       }
     }
+
+    in_word = is_word_char;
 
     // If there is a comment on this line of the macro, ignore the rest of
     // of the line.
